@@ -51,6 +51,35 @@ def source_sha(target: str, inlined: List[str]) -> str:
     return h.hexdigest()[:16]
 
 
+def loop_signature(target: str, inlined: List[str]) -> str:
+    """shape of the loops of the function (and of the functions inlined into it): kind, nesting depth and loop variable of every
+    loop in source order.  Loop invariants are attached to loops by position: when this shape differs from the baseline's,
+    the invariants of the contract no longer belong to the loops they were written for."""
+    import ast as _ast
+    from pyvc.loader import lookup
+    out = []
+    for q in [target] + sorted(set(inlined)):
+        try:
+            node = lookup(q).node
+        except Exception:
+            out.append(f"<{q}?>")
+            continue
+
+        def walk(n: Any, depth: int) -> None:
+            for ch in _ast.iter_child_nodes(n):
+                if isinstance(ch, (_ast.For, _ast.While)):
+                    tgt = _ast.unparse(ch.target) if isinstance(ch, _ast.For) else "while"
+                    out.append(f"{type(ch).__name__}@{depth}:{tgt}")
+                    walk(ch, depth + 1)
+                elif isinstance(ch, (_ast.ListComp, _ast.SetComp, _ast.GeneratorExp, _ast.DictComp)):
+                    out.append(f"comp@{depth}")
+                    walk(ch, depth)
+                else:
+                    walk(ch, depth)
+        walk(node, 0)
+    return ";".join(out)
+
+
 def load_contracts() -> Dict[str, Any]:
     import contracts  # noqa: F401
     contracts.load_all()
@@ -80,6 +109,8 @@ def _worker(args: Tuple[str, float, str]) -> Dict[str, Any]:
         src_sha = source_sha(target, rep.inlined)
         base = BASELINE.get(target)
         changed = bool(base) and base.get("sha") != src_sha
+        loops = loop_signature(target, rep.inlined)
+        loops_changed = bool(base) and base.get("loops") is not None and base.get("loops") != loops
         if changed:
             # the function's text differs from the baseline tree: give every undecided obligation a second, longer attempt
             # before it is compared with the baseline verdicts
@@ -121,7 +152,7 @@ def _worker(args: Tuple[str, float, str]) -> Dict[str, Any]:
         return {"target": target, "status": rep.status, "reason": rep.reason, "paths": rep.paths,
                 "infeasible": rep.infeasible, "seconds": time.time() - t0, "obligations": obs,
                 "calls_by_contract": rep.calls_by_contract, "inlined": rep.inlined, "trusted": c.trusted,
-                "src_sha": src_sha, "src_changed": changed,
+                "src_sha": src_sha, "src_changed": changed, "loops": loops, "loops_changed": loops_changed,
                 "pre_witness": rep.pre_witness, "partial_raises": [list(x) for x in getattr(rep, "partial_raises", [])]}
     except Exception as e:
         return {"target": target, "status": "error", "reason": f"{type(e).__name__}: {e}\n{traceback.format_exc()[-1200:]}",
@@ -175,12 +206,20 @@ def run_property(pid: str, tier: str, seed: int) -> int:
         funcs.append({"function": r["target"], "status": r["status"], "paths": r["paths"], "seconds": round(r["seconds"], 2),
                       "reason": r["reason"][:400]})
         if r["status"] in ("unsupported", "error", "vacuous"):
-            if r["status"] == "error":
-                machinery_fault.append(f"{r['target']}: {r['reason'][:300]}")
+            if r["status"] == "error" and not r.get("src_changed"):
+                machinery_fault.append(f"{r['target']}: {r['reason'][:300]}")      # a crash on the baseline text is the machinery's fault
             undecided.append({"obligation": r["target"] + "/*", "reason": f"{r['status']}: {r['reason'][:300]}"})
+            # the function could not be executed symbolically to the end (a construct outside the subset, an invariant that names
+            # a local that no longer exists, ...): whatever was generated before that point is a partial exploration with proof
+            # artefacts that may not fit the code any more -- nothing of it is reported as a violation
+            for o in r["obligations"]:
+                if not o["must_fail"] and o["status"] != "unsat" and (pid in o["tags"] or o["kind"] in ("safe", "frame", "call-pre")):
+                    undecided.append({"obligation": o["name"], "reason": "function not executed to the end: " + (o["reason"] or o["status"])})
+            continue
         for o in r["obligations"]:
             if pid not in o["tags"] and o["kind"] not in ("safe", "frame", "call-pre"):
                 continue
+            o["loops_changed"] = bool(r.get("loops_changed"))
             solver_seconds += o["seconds"]
             b = by_backend.setdefault(o["backend"] or "none", {"count": 0, "seconds": 0.0})
             b["count"] += 1
@@ -212,7 +251,7 @@ def run_property(pid: str, tier: str, seed: int) -> int:
             else:
                 base = BASELINE.get(r["target"], {})
                 lab = f"{o['kind']}|{o['label'].split('#')[0]}"
-                if r.get("src_changed") and base.get("labels", {}).get(lab) == "unsat":
+                if r.get("src_changed") and not r.get("loops_changed") and base.get("labels", {}).get(lab) == "unsat":
                     # discharged on the baseline tree, the function's text has changed since, and the obligation is no
                     # longer provable (after a second attempt with a longer budget): reported, without an input
                     fname = ("regressed_" + o["name"].replace("/", "_").replace(":", "_").replace("[", ".").replace("]", "")
@@ -251,6 +290,11 @@ def run_property(pid: str, tier: str, seed: int) -> int:
                    "model_excerpt": o.get("model_excerpt", "")}, open(path, "w"), indent=1, default=str)
         if rp["status"] == "violation":
             violations.append((path, ""))
+        elif rp["status"] == "no-input" and o.get("loops_changed"):
+            # refuted, but no input to show for it, and the loops of the function are not the ones the invariants were written
+            # for (the shape differs from the baseline): the counter-model may come from a misplaced invariant
+            undecided.append({"obligation": o["name"], "reason": "refuted without an input after the loop structure of the function changed "
+                                                                  "(invariants are attached by position): not reported"})
         elif rp["status"] == "no-input":
             violations.append((path, " no-failing-input-found"))
         elif rp["status"] == "same-clause":
@@ -356,7 +400,7 @@ def cmd_baseline() -> int:
             lab = f"{o['kind']}|{o['label'].split('#')[0]}"
             st = "unsat" if o["status"] == "unsat" else "other"
             labels[lab] = st if labels.get(lab, "unsat") == "unsat" else "other"
-        out[r["target"]] = {"sha": r.get("src_sha"), "tree": tree, "status": r["status"], "labels": labels}
+        out[r["target"]] = {"sha": r.get("src_sha"), "loops": r.get("loops"), "tree": tree, "status": r["status"], "labels": labels}
     os.makedirs(os.path.dirname(BASELINE_FILE), exist_ok=True)
     json.dump(out, open(BASELINE_FILE, "w"), indent=0, sort_keys=True)
     print(f"baseline of {len(out)} functions written ({sum(1 for v in out.values() for x in v['labels'].values() if x == 'unsat')} clauses discharged)")
